@@ -333,9 +333,24 @@ def _cmd(name):
     return _cmds[name]
 
 
+class CommandHang(BaseException):
+    """raised inside a command that does not come back (BaseException: the command's own handlers must not swallow it)"""
+
+
+HANG_LIMIT = float(os.environ.get("VERIF_HANG_LIMIT", "60"))   # seconds of real time for ONE command (they take milliseconds)
+
+
+def _on_alarm(signum, frame):
+    raise CommandHang()
+
+
 def run_inproc(name, args, now=None, cwd=None, step=0.0):
-    """run one command in this process (seams must be installed); returns Res"""
+    """run one command in this process (seams must be installed); returns Res.  A command that does not return within
+    HANG_LIMIT seconds is interrupted and reported as exit -98 / exc 'CommandHang' (an endless loop in the tool must not
+    hang the exploration)"""
     from click.testing import CliRunner
+    import signal
+    import threading
     import traceback
     if now is not None:
         NOW[0] = now
@@ -343,8 +358,19 @@ def run_inproc(name, args, now=None, cwd=None, step=0.0):
     old = os.getcwd() if cwd else None
     if cwd:
         os.chdir(cwd)
+    armed = threading.current_thread() is threading.main_thread() and signal.getitimer(signal.ITIMER_REAL)[0] == 0
+    if armed:
+        prev = signal.signal(signal.SIGALRM, _on_alarm)
+        signal.setitimer(signal.ITIMER_REAL, HANG_LIMIT)
     try:
-        r = CliRunner(mix_stderr=False).invoke(_cmd(name), [str(a) for a in args])
+        try:
+            r = CliRunner(mix_stderr=False).invoke(_cmd(name), [str(a) for a in args])
+        finally:
+            if armed:
+                signal.setitimer(signal.ITIMER_REAL, 0)
+                signal.signal(signal.SIGALRM, prev)
+    except CommandHang:
+        return Res(-98, "", "", f"CommandHang: {name} did not return within {HANG_LIMIT:.0f} s", None)
     finally:
         if cwd:
             os.chdir(old)
@@ -366,8 +392,11 @@ def run_subproc(name, args, now=None, cwd=None, step=0.0, tz=None, order=None, h
     env["PYTHONHASHSEED"] = str(hashseed)
     env["TZ"] = tz or os.environ.get("TZ", "UTC")
     env["PYTHONPATH"] = VERIF + os.pathsep + env.get("PYTHONPATH", "")
-    p = subprocess.run([PY, "-m", "mc.one"], input=json.dumps(spec), capture_output=True, text=True,
-                       cwd=cwd or VERIF, env=env)
+    try:
+        p = subprocess.run([PY, "-m", "mc.one"], input=json.dumps(spec), capture_output=True, text=True,
+                           cwd=cwd or VERIF, env=env, timeout=HANG_LIMIT + 30)
+    except subprocess.TimeoutExpired:
+        return Res(-98, "", "", f"CommandHang: {name} did not return within {HANG_LIMIT:.0f} s", None)
     try:
         j = json.loads(p.stdout.rsplit("\n@@RES@@", 1)[1])
         return Res(j["exit"], j["out"], j["err"], j["exc"], j.get("tb"),
